@@ -79,7 +79,7 @@ def build_and_run_replay(run, q, case, rdir):
     io = os.path.join(rdir, 'inputs.o')
     cc(['clang', '-c', src, '-o', io])
     exe = os.path.join(rdir, 'replay')
-    cc(['clang++' if cxx else 'clang', '-fsanitize=address,undefined', '-Wl,--gc-sections'] + objs + [ho, rt, io, '-o', exe, '-lm', '-ldl'])
+    cc(['clang++' if cxx else 'clang', '-fsanitize=address,undefined', '-Wl,--gc-sections', '-Wl,--unresolved-symbols=ignore-all'] + objs + [ho, rt, io, '-o', exe, '-lm', '-ldl'])
     with open(os.path.join(rdir, 'build.log'), 'w') as f:
         f.write('\n'.join(log) + '\n')
     env = dict(os.environ, ASAN_OPTIONS='exitcode=99:detect_leaks=0:abort_on_error=0', UBSAN_OPTIONS='print_stacktrace=0')
